@@ -235,6 +235,13 @@ func c17cli(c *core.Ctx, rng *rand.Rand) {
 				amt = "0.5"
 			}
 			fmt.Fprintf(&b, "2020-01-0%d \"t\"\nEquity:Equity %s %s CHF\n\n", 2+k, a, amt)
+			if (k+i)%2 == 0 { // a second and third commodity on the same account: rows that start with an empty label cell
+				amt2 := strings.TrimPrefix(genAmount(r), "-")
+				if amt2 == "0" {
+					amt2 = "7"
+				}
+				fmt.Fprintf(&b, "2020-01-0%d \"u\"\nEquity:Equity %s %s USD\nEquity:Equity %s 1.25 AAPL\n\n", 2+k, a, amt2, a)
+			}
 		}
 		file := filepath.Join(dir, fmt.Sprintf("t%d.knut", i))
 		os.WriteFile(file, []byte(b.String()), 0o644)
